@@ -8,6 +8,9 @@ BASE_NOTE = ("Trusted base: numpy/scipy/raysect/hypothesis as installed in /venv
              "under /verif/vf, and the stated tolerances. Exploration, not proof: holds on the generated cases only.")
 
 CHECKS = {
+ "C02": dict(engine="hypothesis-given", technique="generated plasma states / tables / windows; oracles: total on covering window, bin-average by grid nesting, in-window fraction vs aligned reference grid, absolute erf / hyp2f1 bins from documented formulas, pi+sigma=no, linearity",
+             text="For each of the 7 line-shape classes, generated states (T<=0, flow, B at a chosen angle, un-normalised view), tables and spectral windows (containing / cutting / beside / one bin / fine). Decides normalisation (1e-9 R for Gaussian-built shapes), bin averaging (nesting), in-window fraction, polarisation split and stated ratios, zero-width. Stark is decided to 3e-4 R with the default integrator on bins <= FWHM/2 and to 2e-6 R with a tight integrator; coarser Stark bins are a recorded known finding.",
+             ref="DESIGN.md section 3, C02"),
  "C06": dict(engine="hypothesis-stateful", technique="stateful model-based testing: repository vs dict reference model, bit-for-bit read-back, file-set and stray-write invariants",
              text="Rule-based state machine over all add_*/update_* functions of the 14 rate families (batched updates, rejected updates, reads) against a dict model keyed as the property states; every key is read back bit for bit (uint64 view), never-written neighbours must raise RuntimeError, the set of files must equal the set implied by the writes and a redirected HOME must stay empty. Exploration of generated histories (<=30 steps).",
              ref="DESIGN.md section 3, C06"),
